@@ -262,8 +262,9 @@ void parallel_for_dynamicNoWaitDispatch(
     std::atomic<SizeType> index;
   };
   static_assert(sizeof(ChunkIndex) <= kCacheLineSize, "ChunkIndex must fit in one cache line");
-  char* mem = allocSmallBuffer<kCacheLineSize>();
-  auto* ci = new (mem) ChunkIndex{{0}};
+  std::shared_ptr<ChunkIndex> ci(
+      new (allocSmallBuffer<kCacheLineSize>()) ChunkIndex{{0}},
+      [](ChunkIndex* p) { deallocSmallBuffer<kCacheLineSize>(p); });
   SizeType lastExit = numChunks + static_cast<SizeType>(numToLaunch) - 1;
   IntegerT tailStart = parRange.end;
   IntegerT tailEnd = fullEnd;
@@ -288,7 +289,6 @@ void parallel_for_dynamicNoWaitDispatch(
           if (tailNeeded) {
             tailFunc(tailState, tailStart, tailEnd);
           }
-          deallocSmallBuffer<kCacheLineSize>(ci);
         }
       },
       false);
